@@ -1443,6 +1443,41 @@ func ruleKey1(c *Ctx) {
 		c.R.Anchor("types.stringify case KObj")
 		return
 	}
+	// the key is a function of what equality compares: every field of a type node that the renderer reads is a field that
+	// types.equals (and its helpers) reads too. Text that depends on anything else (a display name, a source position) makes
+	// equal parameter types render differently, so the mono lookup misses for a well-typed call.
+	fieldsRead := func(fds ...*ast.FuncDecl) map[types.Object]string {
+		out := map[types.Object]string{}
+		for _, fd := range fds {
+			if fd == nil {
+				continue
+			}
+			ast.Inspect(fd.Body, func(x ast.Node) bool {
+				se, ok := x.(*ast.SelectorExpr)
+				if !ok {
+					return true
+				}
+				v, ok := c.objOf(se.Sel).(*types.Var)
+				if !ok || !v.IsField() || v.Pkg() == nil || short(v.Pkg().Path()) != "types" {
+					return true
+				}
+				if t := c.typeOf(se.X); t != nil && strings.Contains(typeStr(t), "types.") {
+					out[v] = strings.TrimPrefix(typeStr(t), "*") + "." + v.Name()
+				}
+				return true
+			})
+		}
+		return out
+	}
+	compared := fieldsRead(c.FuncDecl("types", "equals"), c.FuncDecl("types", "equalsObj"), c.FuncDecl("types", "equalsTuple"), c.FuncDecl("types", "equalsFun"))
+	var extra []string
+	for o, nm := range fieldsRead(st) {
+		if _, ok := compared[o]; !ok && o.Name() != "Kind" {
+			extra = append(extra, nm)
+		}
+	}
+	sort.Strings(extra)
+	c.R.Check(len(extra) == 0 && len(compared) >= 5, "types.stringify", "renders only what equality compares", st.Pos(), fmt.Sprintf("fields read by the renderer are among the %d fields read by types.equals", len(compared)), "the rendering used as overload key reads "+strings.Join(extra, ", ")+", which types.equals does not compare: types that are Equal render differently (or the rule's inventory of compared fields shrank)")
 	sorted := len(c.callsTo(&ast.BlockStmt{List: obj.Body}, "sort.Slice", "sort.SliceStable", "sort.Strings", "sort.Sort")) > 0
 	c.R.Check(sorted, "types.stringify", "object fields rendered in canonical order", obj.Pos(), "fields are sorted before rendering", "object fields are rendered in declaration order although types.Equals ignores field order: equal parameter types give different overload keys")
 }
